@@ -673,6 +673,59 @@ def _parses(text):
         return False
 
 
+def r1210(model, rep):
+    """fsr.transformWrenchFrame(w, A, B): the frame change as a function.  (a) The source wrench keeps its data and its recorded frame
+    (a second transformWrenchFrame(w, A, C) on the same object must still start from frame-A data: A->C equals A->B->C only then);
+    decided with the may-write summaries of the effects engine, metadata included.  (b) Every returned value is the result of
+    <copy of w>.changeFrame(<new frame>, <old frame>) with the helper's own parameters in that order."""
+    from ..engine.effects import Effects
+    from ..engine.paths import paths_of
+    rep.rule('R12.10', 'fsr.transformWrenchFrame re-expresses a copy: the source wrench keeps data and recorded frame, and the copy is '
+                       'changed with changeFrame(new frame, old frame)')
+    fi = model.find_func('basic_robotics.general.faser_general', 'transformWrenchFrame')
+    if fi is None:
+        raise AnalysisError('anchor vanished: faser_general.transformWrenchFrame')
+    if len(fi.params) != 3:
+        rep.ob('R12.10', fi, 'signature (wrench, old frame, new frame)', False, 'parameters %s not recognised' % fi.params, shape=True)
+        return
+    w, old, new = fi.params
+    s = Effects(model).summary(fi)
+    sites = [(node, how, k) for (pp, k), ss in s.writes.items() if pp == w for (node, how) in ss]
+    if sites:
+        node, how, k = sites[0]
+        rep.ob('R12.10', fi, 'source wrench `%s` unchanged' % w, False,
+               'the source wrench is re-expressed in place (%s: %s): it no longer holds frame-%s data, so a second change of the same wrench, '
+               'or its pairing with a twist, is taken in the wrong frame' % ('recorded frame' if k == 'meta' else 'data', how, old), line=node.lineno)
+    else:
+        rep.ob('R12.10', fi, 'source wrench `%s` unchanged' % w, True, 'no write to data or recorded frame')
+    n = 0
+    for pth in paths_of(fi.node, fi.params):
+        if pth.ret is None:
+            continue
+        n += 1
+        cf = [e for e in pth.events if e[0] == 'call' and e[1].endswith('.changeFrame')]
+        if len(cf) != 1:
+            rep.ob('R12.10', fi, 'one changeFrame per returning path', False,
+                   '%d changeFrame calls on the path returning %s' % (len(cf), pth.ret[:80]), shape=not cf, line=pth.ret_line)
+            continue
+        got = {}
+        for nm_, a in zip(('new_frame', 'old_frame'), [a for a in cf[0][2] if '=' not in a]):
+            got[nm_] = a
+        for a in cf[0][2]:
+            if '=' in a:
+                got[a.split('=', 1)[0]] = a.split('=', 1)[1]
+        ok = got.get('new_frame') == new and got.get('old_frame') == old
+        rep.ob('R12.10', fi, 'changeFrame(new frame, old frame)', ok,
+               'changeFrame receives new_frame=%s, old_frame=%s; the helper\'s frames are old=%s, new=%s' % (got.get('new_frame'), got.get('old_frame'), old, new),
+               line=cf[0][3])
+        recv = cf[0][1][:-len('.changeFrame')]
+        returned = pth.ret
+        ok2 = returned.startswith(recv) or returned == recv
+        rep.ob('R12.10', fi, 'the re-expressed wrench is what is returned', ok2,
+               'changeFrame is applied to %s but %s is returned' % (recv, returned[:80]), line=pth.ret_line)
+    rep.floor('R12.10', 'returns of transformWrenchFrame', n, 1)
+
+
 def check(model, rep):
     rep.extra['explanation'] = (
         'Structural rules on the Screw/Wrench classes: operator/dunder agreement on every return branch, exact shape of '
@@ -687,6 +740,7 @@ def check(model, rep):
     ck.r124()
     ck.r128()
     ck.r129()
+    r1210(model, rep)
     from .c02 import closure_obligations
     tmcls = model.cls('basic_robotics.general.faser_transform', 'tm')
     helpers = [f for f in model.funcs_in('basic_robotics.general.basic_helpers') if f.name in ('globalToLocal', 'localToGlobal')]
